@@ -345,25 +345,33 @@ class Scen(CompScenario):
             prev = None
             for (idx, kind, x, c0, c1, r, sampled) in recs:
                 what = f"caller {k} op {idx} {kind}(x={x}) issued in cycle {c0}, returned in cycle {c1}"
-                self.expect(0 <= c0 < c1 <= T, "call-did-not-wait-a-cycle", what, who=who, op=kind)
+                if not 0 <= c0 <= c1 <= T:
+                    raise RuntimeError(f"{what}: malformed interval (T={T})")
                 for t in range(c0, c1):
                     intervals[k][t] = idx
-                early = [t for t in range(c0, c1 - 1) if ex[t]]
-                self.expect(not early, "call-extra-execution",
-                            f"{what}: the method body also ran in cycle(s) {early}", who=who, op=kind)
-                ran = ex[c1 - 1]
+                # the executing cycle of the call is the cycle of [c0, c1) in which the method body ran: exactly one
+                # for a result, none for None (when within the interval it runs is not stated)
+                execs = [t for t in range(c0, c1) if ex[t]]
+                if c1 == c0:
+                    self.hit("helper_returned_in_the_cycle_it_was_issued")
                 if r is None:
                     self.expect(kind in ("try", "trig", "trigus"), "blocking-call-returned-none", what, who=who, op=kind)
-                    self.expect(not ran, "none-but-executed",
-                                f"{what}: result None although the method body ran in cycle {c1 - 1}", who=who, op=kind)
+                    self.expect(not execs, "none-but-executed",
+                                f"{what}: result None although the method body ran in cycle(s) {execs}", who=who, op=kind)
                     self.hit(f"{kind}_none")
                 else:
-                    self.expect(ran == 1, "returned-without-execution",
-                                f"{what}: result {r} but the method body did not run in cycle {c1 - 1}", who=who, op=kind)
-                    g = hw[c1 - 1]["gcnt"]
-                    want = (g, (x ^ K_ECHO ^ g) & 0xFF, hw[c1 - 1][f"cnt{k}"])
+                    self.expect(len(execs) >= 1, "returned-without-execution",
+                                f"{what}: result {r} but the method body did not run in any cycle of [{c0}, {c1})",
+                                who=who, op=kind)
+                    self.expect(len(execs) == 1, "call-extra-execution",
+                                f"{what}: the method body ran in cycles {execs}: more than one call", who=who, op=kind)
+                    te = execs[0]
+                    if te != c1 - 1:
+                        self.hit("executed_before_last_cycle_of_the_call")
+                    g = hw[te]["gcnt"]
+                    want = (g, (x ^ K_ECHO ^ g) & 0xFF, hw[te][f"cnt{k}"])
                     self.expect(r == want, "result-data-mismatch",
-                                f"{what}: result {r}, the executing cycle {c1 - 1} produced {want}", who=who, op=kind)
+                                f"{what}: result {r}, the executing cycle {te} produced {want}", who=who, op=kind)
                     if kind in ("call", "trigu"):
                         self.hit(f"{kind}_immediate" if c1 == c0 + 1 else f"{kind}_waited")
                     else:
@@ -372,27 +380,32 @@ class Scen(CompScenario):
                         self.hit("back_to_back_executions")
                 if sampled is not None:
                     scyc, sg = sampled
-                    self.expect(scyc == (c1 - 1) & 0xFFFF and (sg is None or sg == hw[c1 - 1]["gcnt"]),
-                                "trigger-sample-mismatch",
-                                f"{what}: sampled cyc={scyc} gcnt={sg}, hardware had cyc={c1 - 1} "
-                                f"gcnt={hw[c1 - 1]['gcnt']}", who=who, op=kind)
+                    # which cycle CallTrigger.sample() samples is not part of the statement: only counted
+                    if c1 == 0 or not (scyc == (c1 - 1) & 0xFFFF and (sg is None or sg == hw[c1 - 1]["gcnt"])):
+                        self.hit("trigger_sample_not_from_last_cycle_of_the_call")
                 prev = (idx, kind, x, c0, c1, r)
             fl = self.inflight[k]
+            unreported = 0
             if fl is not None:
                 idx, kind, x, c0 = fl
                 self.hit("in_flight_at_end")
                 for t in range(c0, T):
                     intervals[k][t] = idx
-                ran = [t for t in range(c0, T) if ex[t]]
+                # an execution in the last simulated cycle may simply not have been reported yet
+                ran = [t for t in range(c0, T - 1) if ex[t]]
                 self.expect(not ran, "executed-but-never-returned",
                             f"caller {k} op {idx} {kind}(x={x}) issued in cycle {c0} has not returned by cycle {T}, "
                             f"yet the method body ran in cycle(s) {ran}", who=who, op=kind)
+                if T and T - 1 >= c0 and ex[T - 1]:
+                    self.hit("executed_in_last_cycle_not_yet_returned")
+                    unreported = 1
             stray = [t for t in range(T) if ex[t] and intervals[k][t] is None]
             self.expect(not stray, "execution-outside-any-call",
                         f"caller {k}: the method body ran in cycle(s) {stray[:6]} while no call of this caller was "
                         f"pending (enable left asserted)", who=who)
-            self.expect(self.nret[k] == hw[T][f"cnt{k}"], "returns-differ-from-executions",
-                        f"caller {k}: {self.nret[k]} successful returns, {hw[T][f'cnt{k}']} executions", who=who)
+            self.expect(self.nret[k] == hw[T][f"cnt{k}"] - unreported, "returns-differ-from-executions",
+                        f"caller {k}: {self.nret[k]} successful returns, {hw[T][f'cnt{k}']} executions"
+                        + (" (one of them in the last cycle, call still pending)" if unreported else ""), who=who)
         for t in range(T):
             pend = [k for k in range(self.nc) if intervals[k][t] is not None]
             if len(pend) >= 2:
